@@ -55,7 +55,8 @@ CONSTANTS Task,      \* tasks started by pyscript (trigger occurrence, service c
           Flags,     \* deviation flags of this run
           None
 
-AllOps   == {"unique", "sleep", "raise", "create", "cancel", "addcb", "rmcb", "wait", "exec", "call"}
+AllOps   == {"unique", "sleep", "raise", "create", "cancel", "addcb", "rmcb", "wait", "exec", "call", "cbtab"}
+\* ("cbtab": a done-callback that is running calls task.add_done_callback / remove_done_callback itself)
 AllFlags == {"foreign-killme-cancelled", "cb-raise-breaks", "cancel-in-cb-skips-cleanup",
              "cancel-unstarted-typeerror", "svc-addcb-keyerror", "deco-killme-claims", "call-couples-cancel",
              "method-cb-per-lookup"}
@@ -83,12 +84,16 @@ VARIABLES
   waitOn,
   \* history, for the invariants only
   lastClaim, claimed, kmBad, crossKill, apiErr, exitCancelled,
-  stale     \* [All -> [Fn -> Seq(1..MaxArg)]]  only under "method-cb-per-lookup": argument versions of the
+  stale,    \* [All -> [Fn -> Seq(1..MaxArg)]]  only under "method-cb-per-lookup": argument versions of the
             \* earlier entries of a method that was added again (they run before the latest one)
+  alt       \* [All -> [Fn -> SUBSET 1..MaxArg]]  the callback table of a task was changed while the task was already
+            \* in its exit protocol (by one of its own done-callbacks, or by another task while a done-callback was
+            \* suspended): every argument version the entry of f has had since then.  The statement does not say
+            \* whether such an f still runs / with which of these arguments ("loose"); every OTHER function does
 
 core == <<flags, cur, st, phase, nops, nenv, ctxOf, kind, deco, pend, rq, rbusy, n2t, t2n, ours, cbKeys,
           ctxKeys, cbs, ran, ranArg, cbcur, cbstop, outcome, waitOn>>
-hist == <<lastClaim, claimed, kmBad, crossKill, apiErr, exitCancelled, stale>>
+hist == <<lastClaim, claimed, kmBad, crossKill, apiErr, exitCancelled, stale, alt>>
 vars == <<core, hist>>
 
 Has(f) == f \in flags
@@ -110,6 +115,7 @@ InitWith(fl) ==
   /\ lastClaim = [k \in Key |-> None] /\ claimed = [t \in All |-> {}]
   /\ kmBad = FALSE /\ crossKill = FALSE /\ apiErr = {} /\ exitCancelled = [t \in All |-> FALSE]
   /\ stale = [t \in All |-> [f \in Fn |-> <<>>]]
+  /\ alt = [t \in All |-> [f \in Fn |-> {}]]
 Init == InitWith(Flags)
 
 Done(t)    == st[t] = "done"
@@ -192,7 +198,7 @@ Start(t) ==
                   \* the rule: a kill_me caller never cancels anybody
                   /\ kmBad' = (kmBad \/ (d.km /\ Other(t, k)))
   /\ UNCHANGED <<flags, phase, nops, nenv, ctxOf, kind, deco, pend, rbusy, cbs, ran, ranArg, cbcur, cbstop,
-                 waitOn, apiErr, exitCancelled, stale>>
+                 waitOn, apiErr, exitCancelled, stale, alt>>
 
 Wake(t) ==        \* the sleep of a parked task expires (any relative timing, incl. same instant)
   /\ cur = None /\ st[t] = "parked" /\ st' = [st EXCEPT ![t] = "ready"]
@@ -234,7 +240,7 @@ DeliverCancel(t) ==
      ELSE /\ st' = [st EXCEPT ![t] = "run"] /\ cur' = t /\ phase' = [phase EXCEPT ![t] = "exit"]
           /\ UNCHANGED <<cbcur, cbstop, exitCancelled>>
   /\ UNCHANGED <<flags, nops, nenv, ctxOf, kind, deco, rq, rbusy, n2t, t2n, ours, cbKeys, ctxKeys, cbs, ran,
-                 ranArg, waitOn, lastClaim, claimed, kmBad, crossKill, apiErr, stale>>
+                 ranArg, waitOn, lastClaim, claimed, kmBad, crossKill, apiErr, stale, alt>>
 
 \* ------------------------------------------------------------------ operations of the running task
 \* the global context in which a piece of code of task t may execute: the context t was started in, and - a
@@ -259,7 +265,7 @@ OpUnique(t, c, n, km) ==
                         /\ crossKill' = (crossKill \/ \E i \in 1..Len(enq) : k \notin claimed[enq[i]])
                         /\ UNCHANGED <<n2t, t2n, lastClaim, claimed>>
   /\ UNCHANGED <<flags, phase, nenv, ctxOf, kind, deco, pend, rbusy, ours, cbKeys, ctxKeys, cbs, ran, ranArg,
-                 cbcur, cbstop, outcome, waitOn, apiErr, exitCancelled, stale>>
+                 cbcur, cbstop, outcome, waitOn, apiErr, exitCancelled, stale, alt>>
 
 \* what task.name2id() shows to code of global context c: the owner of every name of c (None: NameError)
 View(c) == [n \in Name |-> n2t[<<c, n>>]]
@@ -301,13 +307,19 @@ OpCancel(t, v) ==         \* task.cancel(v) / task.cancel(): only enqueued to th
      ELSE IF st[v] = "new" /\ Has("cancel-unstarted-typeerror") THEN ApiError(t, "cancel")
      ELSE /\ rq' = Append(rq, v) /\ UNCHANGED <<st, cur, phase, outcome, apiErr, cbs>>
   /\ UNCHANGED <<flags, nenv, ctxOf, kind, deco, pend, rbusy, n2t, t2n, ours, cbKeys, ctxKeys, ran, ranArg,
-                 cbcur, cbstop, waitOn, lastClaim, claimed, kmBad, crossKill, exitCancelled, stale>>
+                 cbcur, cbstop, waitOn, lastClaim, claimed, kmBad, crossKill, exitCancelled, stale, alt>>
 
-CbTarget(t, v) == t \in Task /\ v \in Task /\ Live(v) /\ phase[v] = "body"
+\* the target may already be in its exit protocol (a done-callback of it is suspended): see `alt`
+CbTarget(t, v) == t \in Task /\ v \in Task /\ Live(v)
+InExit(v) == Live(v) /\ phase[v] # "body"
+AltAdd(v, f, a) == IF InExit(v) THEN [alt EXCEPT ![v][f] = (@ \cup {cbs[v][f], a}) \ {0}] ELSE alt
+AltRm(v, f)     == IF InExit(v) THEN [alt EXCEPT ![v][f] = (@ \cup {cbs[v][f]}) \ {0}] ELSE alt
+Loose(t) == {f \in Fn : alt[t][f] # {}}
 OpAddCb(t, v, f, a) ==    \* one entry per callback function, a later add overwrites the arguments
   /\ CanOp(t, "addcb") /\ Count(t) /\ CbTarget(t, v) /\ a \in 1..MaxArg
   /\ IF kind[v] = "svc" /\ Has("svc-addcb-keyerror") THEN ApiError(t, "addcb")
      ELSE /\ cbs' = [cbs EXCEPT ![v][f] = a] /\ UNCHANGED <<st, cur, phase, outcome, apiErr, rq>>
+  /\ alt' = IF kind[v] = "svc" /\ Has("svc-addcb-keyerror") THEN alt ELSE AltAdd(v, f, a)
   /\ stale' = IF PerLookup(f) /\ cbs[v][f] # 0 /\ ~(kind[v] = "svc" /\ Has("svc-addcb-keyerror"))
               THEN [stale EXCEPT ![v][f] = Append(@, cbs[v][f])] ELSE stale
   /\ UNCHANGED <<flags, nenv, ctxOf, kind, deco, pend, rbusy, n2t, t2n, ours, cbKeys, ctxKeys, ran, ranArg,
@@ -318,8 +330,28 @@ OpRmCb(t, v, f) ==
   /\ IF kind[v] = "svc" /\ Has("svc-addcb-keyerror") THEN ApiError(t, "rmcb")
      ELSE /\ cbs' = [cbs EXCEPT ![v][f] = IF PerLookup(f) THEN @ ELSE 0]
           /\ UNCHANGED <<st, cur, phase, outcome, apiErr, rq>>
+  /\ alt' = IF (kind[v] = "svc" /\ Has("svc-addcb-keyerror")) \/ PerLookup(f) THEN alt ELSE AltRm(v, f)
   /\ UNCHANGED <<flags, nenv, ctxOf, kind, deco, pend, rbusy, n2t, t2n, ours, cbKeys, ctxKeys, ran, ranArg,
                  cbcur, cbstop, waitOn, lastClaim, claimed, kmBad, crossKill, exitCancelled, stale>>
+
+\* the done-callback of t that is running right now calls task.add_done_callback / task.remove_done_callback: for
+\* the ending task itself (task.current_task() is that task: a one-shot callback that takes itself off, a callback
+\* that removes or chains another one) or for any other live task.  The call is an ordinary API call: it does not
+\* raise, the callback goes on, the outcome of the ending task is untouched, and every function whose entry was
+\* not changed still runs exactly once with its arguments.
+CanCbTab(t) == cur = t /\ phase[t] = "cb" /\ nops[t] < MaxOps /\ "cbtab" \in Ops
+CbAdd(t, v, f, a) ==
+  /\ CanCbTab(t) /\ Count(t) /\ CbTarget(t, v) /\ a \in 1..MaxArg
+  /\ cbs' = [cbs EXCEPT ![v][f] = a] /\ alt' = AltAdd(v, f, a)
+  /\ UNCHANGED <<flags, cur, st, phase, nenv, ctxOf, kind, deco, pend, rq, rbusy, n2t, t2n, ours, cbKeys, ctxKeys,
+                 ran, ranArg, cbcur, cbstop, outcome, waitOn, lastClaim, claimed, kmBad, crossKill, apiErr,
+                 exitCancelled, stale>>
+CbRm(t, v, f) ==
+  /\ CanCbTab(t) /\ Count(t) /\ CbTarget(t, v)
+  /\ cbs' = [cbs EXCEPT ![v][f] = 0] /\ alt' = AltRm(v, f)
+  /\ UNCHANGED <<flags, cur, st, phase, nenv, ctxOf, kind, deco, pend, rq, rbusy, n2t, t2n, ours, cbKeys, ctxKeys,
+                 ran, ranArg, cbcur, cbstop, outcome, waitOn, lastClaim, claimed, kmBad, crossKill, apiErr,
+                 exitCancelled, stale>>
 
 OpWait(t, v) ==           \* task.wait({v}): asyncio.wait always suspends, also for a done task
   /\ CanOp(t, "wait") /\ Count(t) /\ t \in Task /\ v \in Task /\ v # t /\ st[v] # "absent"
@@ -386,6 +418,15 @@ CbStartStale(t, f) ==     \* "method-cb-per-lookup": an earlier entry of a metho
   /\ UNCHANGED <<flags, cur, st, nops, nenv, ctxOf, kind, deco, pend, rq, rbusy, n2t, t2n, ours, cbKeys,
                  ctxKeys, cbs, cbstop, outcome, waitOn, hist>>
 
+\* a function whose entry was changed after the exit protocol had begun: it may run (once) with any of the
+\* argument versions its entry has had since then, or not at all
+CbStartLoose(t, f, a) ==
+  /\ cur = t /\ phase[t] = "exit" /\ ~cbstop[t] /\ ran[t][f] = 0 /\ a \in alt[t][f]
+  /\ phase' = [phase EXCEPT ![t] = "cb"] /\ cbcur' = [cbcur EXCEPT ![t] = f]
+  /\ ran' = [ran EXCEPT ![t][f] = 1] /\ ranArg' = [ranArg EXCEPT ![t][f] = a]
+  /\ UNCHANGED <<flags, cur, st, nops, nenv, ctxOf, kind, deco, pend, rq, rbusy, n2t, t2n, ours, cbKeys,
+                 ctxKeys, cbs, cbstop, outcome, waitOn, hist>>
+
 CbFinish(t) ==
   /\ cur = t /\ phase[t] = "cb"
   /\ phase' = [phase EXCEPT ![t] = "exit"] /\ cbcur' = [cbcur EXCEPT ![t] = None]
@@ -406,7 +447,7 @@ CbSuspend(t) ==           \* the callback sleeps: the ending task is parked insi
                  cbs, ran, ranArg, cbcur, cbstop, outcome, waitOn, hist>>
 
 Cleanup(t) ==             \* release the unique names, forget HA context, callbacks and the task
-  /\ cur = t /\ phase[t] = "exit" /\ (cbstop[t] \/ PendingCb(t) = {})
+  /\ cur = t /\ phase[t] = "exit" /\ (cbstop[t] \/ PendingCb(t) \ Loose(t) = {})
   /\ n2t' = [k \in Key |-> IF k \in t2n[t] THEN None ELSE n2t[k]]
   /\ t2n' = [t2n EXCEPT ![t] = {}]
   /\ ours' = ours \ {t} /\ cbKeys' = cbKeys \ {t} /\ ctxKeys' = ctxKeys \ {t}
@@ -422,7 +463,8 @@ RunStep(t) ==             \* what the task holding the loop can do next
   \/ \E v \in Task : OpCreate(t, v) \/ OpCancel(t, v) \/ OpWait(t, v)
   \/ \E v \in Task, c \in Ctx, bl \in BOOLEAN : OpCall(t, v, c, bl)
   \/ \E v \in Task, f \in Fn : OpRmCb(t, v, f) \/ \E a \in 1..MaxArg : OpAddCb(t, v, f, a)
-  \/ \E f \in Fn : CbStart(t, f) \/ CbStartStale(t, f)
+  \/ \E f \in Fn : CbStart(t, f) \/ CbStartStale(t, f) \/ \E a \in 1..MaxArg : CbStartLoose(t, f, a)
+  \/ \E v \in Task, f \in Fn : CbRm(t, v, f) \/ \E a \in 1..MaxArg : CbAdd(t, v, f, a)
   \/ CbFinish(t) \/ CbRaise(t) \/ CbSuspend(t) \/ Cleanup(t)
 Env ==
   \/ \E t \in Task, kd \in Kinds, c \in Ctx, d \in Decos \cup {NoDeco} : Spawn(t, kd, c, d)
@@ -482,8 +524,9 @@ KillMeKillsCallerIffOtherLiveOwner == ~kmBad
 CallbacksExactlyOncePerFunction ==
   \A t \in Task : \A f \in Fn :
     /\ ran[t][f] <= 1
-    /\ ran[t][f] = 1 => cbs[t][f] # 0 /\ ranArg[t][f] = cbs[t][f]
-    /\ (Done(t) /\ outcome[t] # "refused" /\ ~exitCancelled[t] /\ cbs[t][f] # 0) => ran[t][f] = 1
+    /\ ran[t][f] = 1 => IF alt[t][f] = {} THEN cbs[t][f] # 0 /\ ranArg[t][f] = cbs[t][f]
+                                          ELSE ranArg[t][f] \in alt[t][f]
+    /\ (Done(t) /\ outcome[t] # "refused" /\ ~exitCancelled[t] /\ cbs[t][f] # 0 /\ alt[t][f] = {}) => ran[t][f] = 1
 DoneInNoRegistry ==
   \A t \in All : Done(t) => /\ t \notin ours /\ t \notin cbKeys /\ t \notin ctxKeys
                             /\ t2n[t] = {} /\ \A k \in Key : n2t[k] # t
@@ -531,8 +574,16 @@ WitnessConds == <<
                                            /\ ctxOf[lastClaim[k]] # ctxOf[t],  \*    name inside the same third-party code)
   \E t, u \in Task : /\ t # u /\ ctxOf[t] = ctxOf[u] /\ Running(t) /\ Running(u)  \* 16 one spelling, one starting context,
                      /\ \E n \in Name : \E c, d \in Ctx :                       \*    two live owners: the names live in
-                          c # d /\ n2t[<<c, n>>] = t /\ n2t[<<d, n>>] = u >>      \*    different code contexts
-NW == 16
+                          c # d /\ n2t[<<c, n>>] = t /\ n2t[<<d, n>>] = u,       \*    different code contexts
+  \E t \in Task : \E f, g \in Fn : /\ phase[t] = "cb" /\ cbcur[t] = g /\ f # g     \* 17 the table of an ending task was
+                                   /\ alt[t][f] # {} /\ alt[t][g] = {},          \*    changed, an untouched callback runs
+  \E t \in Task : \E f \in Fn : /\ Done(t) /\ ~exitCancelled[t] /\ cbs[t][f] # 0   \* 18 a callback added during the exit
+                                /\ ran[t][f] = 0 /\ outcome[t] # "refused",      \*    protocol never ran
+  \E t \in Task : \E f \in Fn : ran[t][f] = 1 /\ cbs[t][f] = 0,                  \* 19 a callback removed itself / ran
+                                                                              \*    though it was removed meanwhile
+  \E t, u \in Task : \E f \in Fn : /\ t # u /\ cur = u /\ phase[u] = "body"         \* 20 another task changed the table of
+                                   /\ phase[t] = "cb" /\ alt[t][f] # {} >>       \*    a task suspended in a done-callback
+NW == 20
 ASSUME \A i \in 1..NW : TLCSet(100 + i, FALSE)
 Witness == \A i \in 1..NW : WitnessConds[i] => TLCSet(100 + i, TRUE)
 WitnessReport == \A i \in 1..NW : TLCGet(100 + i) \/ PrintT(<<"UNSEEN", i>>)
